@@ -68,9 +68,16 @@ class IdentityRun:
 		self.bad = False
 
 	def handler(self, node, **event):
+		from rogw.tranp.errors import Errors
 		acc = self.acc
 		acc.see('handler_calls_checked', type(node).__name__)
-		flat, shape = pmon.expected_children(node)
+		try:
+			flat, shape = pmon.expected_children(node)
+		except Errors.NodeNotFound as e:
+			# the walker reads the same properties when it flattens the tree: a node one of whose declared properties cannot be read
+			# is refused there and never reaches a handler
+			self.fail('handler-for-node-with-unreadable-property', f'{node!r}: handler called with keys {sorted(event)} although a declared property raises NodeNotFound ({str(e)[:120]})')
+			return node
 		keys = list(shape.keys())
 		if sorted(event.keys()) != sorted(keys):
 			self.fail('event-keys', f'{node!r}: handler got keys {sorted(event)}, declared properties {sorted(keys)}')
@@ -190,12 +197,22 @@ def identity_case(acc: Acc, case: dict) -> None:
 	acc.case(sig_of(sorted(set(classes))) if classes else None, {'kind': case['kind'], 'source': text[:240]} if case['kind'] == 'source' else {'kind': 'module', 'module': case['module']}, multi[0])
 
 
-def transpile_case(acc: Acc, module: str) -> None:
+# in-memory modules for the real Py2Cpp run: handlers that ask Reflections for types while the tree is being processed
+# (members of instantiated generic bases read through subclasses, several levels of inheritance, properties, enums)
+TRANSPILE_SOURCES = [
+	"from typing import Generic, TypeVar\n\nT = TypeVar('T')\n\n\nclass Base(Generic[T]):\n\tvalue: T\n\n\tdef __init__(self, value: T) -> None:\n\t\tself.value = value\n\n\nclass Sub(Base[int]):\n\tdef get(self) -> int:\n\t\treturn self.value\n\n\nclass Other(Base[str]):\n\tdef size(self) -> int:\n\t\treturn len(self.value)\n\n\nclass Leaf(Sub):\n\tdef twice(self) -> int:\n\t\tv = self.value\n\t\treturn v + self.get()\n\n\ndef use(n: int) -> int:\n\ts = Sub(n)\n\tl = Leaf(n)\n\treturn s.value + l.value + l.twice()\n",
+	"from enum import Enum\n\n\nclass Tone(Enum):\n\tLOW = 1\n\tHIGH = 2\n\n\nclass P:\n\tn: int\n\n\tdef __init__(self, n: int) -> None:\n\t\tself.n = n\n\n\t@property\n\tdef twice(self) -> int:\n\t\treturn self.n * 2\n\n\ndef f(p: P) -> int:\n\txs = [p.twice, Tone.HIGH.value]\n\ttry:\n\t\ty = xs[0]\n\texcept RuntimeError as e:\n\t\ty = 0\n\treturn y if p.n > 1 else len(xs)\n",
+]
+
+
+def transpile_case(acc: Acc, module: str, source: str | None = None) -> None:
 	"""(b) real Py2Cpp + Reflections run under the shadow-stack monitor."""
 	from rogw.tranp.errors import Errors
 	s = session()
-	case = {'kind': 'transpile', 'module': module}
+	case = {'kind': 'transpile', 'module': module, 'source': source}
 	try:
+		if source is not None:
+			s.set_source(module, source)
 		s.modules.unload(module)
 		s.transpile(module)
 		acc.see('real_transpile', 'ok')
@@ -215,7 +232,7 @@ SPECIAL = [
 	'"""doc"""\n', "'a'\n'b'\n", '"""doc"""\nx = 1\n', 'def f() -> None:\n\t"""doc"""\n\tx = 1\n\t"""not a doc"""\nclass A:\n\t"""doc"""\n\tdef m(self) -> None:\n\t\t"""doc"""\n', '', '\n', 'pass\n', '...\n',
 	'x = ()\n', 'def f() -> None:\n\treturn\n', 'with a:\n\tpass\n', '@deco\ndef f() -> None:\n\t...\n', 'x = a[:]\ny = a[::2]\n',
 	'class A:\n\tdef __init__(self) -> None:\n\t\tself.x: int = 0\n\t@property\n\tdef p(self) -> int:\n\t\treturn self.x\n',
-	'x = [i for i in a]\ny = {k: v for k, v in b if k}\n', 'try:\n\tpass\nexcept A:\n\tpass\n', 'f(a, k=1, *b, **c)\n', 'x = lambda: 1\n',
+	'x = [i for i in a]\ny = {k: v for k, v in b if k}\n', 'try:\n\tpass\nexcept A:\n\tpass\n', 'def f() -> None:\n\tx = 1\n\ttry:\n\t\ty = 2\n\texcept E:\n\t\tz = 3\n\texcept F as e:\n\t\tw = 4\n', 'f(a, k=1, *b, **c)\n', 'x = lambda: 1\n',
 ]
 
 
@@ -231,9 +248,14 @@ def shard(ctx: Ctx, acc: Acc) -> None:
 	if ctx.shard == 0:
 		for i, text in enumerate(SPECIAL):
 			identity_case(acc, {'kind': 'source', 'source': text, 'seed': i})
-	for j, m in enumerate(REAL_TRANSPILE):
+	for j, m in enumerate(REAL_TRANSPILE + TRANSPILE_SOURCES):
 		if j % ctx.nshards == ctx.shard:
 			try:
+				if j >= len(REAL_TRANSPILE):
+					# twice: the second run meets whatever the first one left on the nodes
+					transpile_case(acc, '__main__', m)
+					transpile_case(acc, '__main__', m)
+					continue
 				transpile_case(acc, m)
 			except Exception as e:  # noqa
 				acc.extra.setdefault('harness_errors', []).append(fmt_exc(e) + m)
@@ -259,6 +281,6 @@ def shard(ctx: Ctx, acc: Acc) -> None:
 
 def replay(ctx: Ctx, case: dict, acc: Acc) -> None:
 	if case.get('kind') == 'transpile':
-		transpile_case(acc, case['module'])
+		transpile_case(acc, case['module'], case.get('source'))
 	else:
 		identity_case(acc, case)
